@@ -24,9 +24,42 @@ VS_SIG, VS_VER = 0xfeef04bd, 0x00010000
 MISC_NINTS = {1: 6, 2: 11, 3: 15 + (1 + 32 + 8 + 1 + 32 + 8 + 1), 4: 15 + 83 + 300, 5: 15 + 83 + 300 + 3 + 128 + 1}
 MISC_SIGNED = {3: {15, 15 + 41, 15 + 82}}
 SECTIONS = ["hdr", "sys", "thr", "mod", "mem", "memq", "m64", "m64q", "exc", "tnm", "unl", "mi", "misc",
-            "bp", "asr", "ti", "lxcpu", "lxstatus", "lxlsb", "lxenv", "lxmaps", "lxlim", "hnd"]
+            "bp", "asr", "ti", "lxcpu", "lxstatus", "lxlsb", "lxenv", "lxmaps", "lxlim", "hnd", "dir", "unk"]
 RAW_KEYS = ["lxcpu", "lxstatus", "lxlsb", "lxenv", "lxmaps", "lxlim"]
 KV_SEP = {"lxcpu": b":", "lxstatus": b":", "lxlsb": b"=", "lxenv": b"="}
+
+
+# every stream-type number with a name (minidumpapiset.h 0..24, Windows CE 0x8000..0x800c, LastReservedStream,
+# Breakpad 0x47670001..a, Crashpad 0x43500001, Mozilla 0x4d7a0001..4): written down here independently of format.rs
+NAMED = set(range(0, 25)) | set(range(0x8000, 0x800d)) | {0xffff} | set(range(0x47670001, 0x4767000b)) | {0x43500001} | set(range(0x4d7a0001, 0x4d7a0005))
+# named, but no typed reader is exercised by this check (raw access only)
+NAMED_RAW_ONLY = [0, 0, 1, 2, 8, 10, 10, 11, 13, 18, 19, 20, 21, 22, 23, 0x8000, 0x8001, 0x8005, 0x800c, 0xffff, 0x47670006, 0x47670008, 0x4767000a]
+UNKNOWN_TYPES = [0x4d7a0b0b, 0x4d7a0b0b, 0x4d7a0005, 0x4d7a0000, 0x47670000, 0x4767000b, 0x4767ffff, 0x43500002, 0x43500000, 25, 26, 0x7fff, 0x800d,
+                 0x10000, 0x10001, 0xfffffffe, 0xffffffff, 0x80000000, 0x12345678]
+
+
+def stream_vendor(ty):
+    if ty <= 0xffff:
+        return 0
+    return {0x47670000: 1, 0x4d7a0000: 2}.get(ty & 0xffff0000, 3)
+
+
+def expected_dir(h, big):
+    """the directory as a whole, recomputed from the bytes of the case: one entry per type (ascending), the LAST of the
+    type (index, size, rva), its bytes when the location lies within the file; the entries of unnamed types"""
+    b = bytes.fromhex(h)
+    last = {}
+    for i, (ty, size, rva) in enumerate(dir_entries(h, big)):
+        last[ty] = (i, size, rva)
+    items, unk = [], []
+    for ty in sorted(last):
+        i, size, rva = last[ty]
+        it = [ty, i, size, rva]
+        it += ([2] + blob4(b[rva:rva + size])) if rva + size <= len(b) else [1]
+        items.append(it)
+        if ty not in NAMED:
+            unk.append([ty, size, rva, stream_vendor(ty)])
+    return {"dir": (2, items), "unk": (2, unk)}
 
 
 # ----------------------------------------------------------------------------- blobs / tokens
@@ -1102,24 +1135,10 @@ class C02(PropBase):
             for k in ST:
                 if m.get(k) is not None:
                     dist["streams"][k] += 1
-            if rng.chance(1, 2):
-                ents = dir_entries(h, False)
-                k = rng.range(1, 3)
-                extra = []
-                for _ in range(k):
-                    st = rng.below(4)
-                    if st == 0 and ents:       # same type as a real stream, pointing at another real stream
-                        a, b = rng.choice(ents), rng.choice(ents)
-                        extra.append((a[0], b[1], b[2] + 12 * k))
-                    elif st == 1 and ents:     # same type, garbage location
-                        a = rng.choice(ents)
-                        extra.append((a[0], rng.below(4096), rng.below(len(h) // 2 + 64)))
-                    elif st == 2 and ents:     # same type, empty
-                        extra.append((rng.choice(ents)[0], 0, 0))
-                    else:                      # unrelated type
-                        extra.append((rng.choice([0, 0, 8, 10, 0x47670006, 0x47670008, 0x4350ffff, 0xffff]), rng.below(64), rng.below(len(h) // 2 + 1)))
-                m["extra"] = extra
+            if rng.chance(2, 3):
+                m["extra"] = self.gen_extras(rng, dir_entries(h, False), len(h) // 2)
                 dist["with_duplicate_directory_entries"] += 1
+                dist["extra_directory_entries"] = dist.get("extra_directory_entries", 0) + len(m["extra"])
         toks = []
         for m in models:
             for en in (0, 1):
@@ -1133,6 +1152,46 @@ class C02(PropBase):
             dist["bytes_total"] += len(h) // 2
             cases.append(hexline(h, tag, t))
         return cases, dist, False
+
+    @staticmethod
+    def gen_extras(rng, ents, flen):
+        """leading directory entries: 2-4 entries (counting the real one) of types the dump has, 2-4 of named types without a
+        reader, 2-4 of vendor / unknown types, singletons; locations inside the file (distinct bytes), empty, out of bounds"""
+        groups = []
+        for _ in range(rng.below(3)):                       # duplicates of a stream the dump really has (the real one stays last)
+            if ents:
+                groups.append((rng.choice(ents)[0], rng.range(1, 3), True))
+        for _ in range(rng.below(3)):                       # named, raw access only
+            groups.append((rng.choice(NAMED_RAW_ONLY), rng.choice([1, 2, 2, 3, 4]), False))
+        for _ in range(rng.range(0, 3)):                    # vendor / unknown
+            ty = rng.choice(UNKNOWN_TYPES) if rng.chance(3, 4) else rng.below(1 << 32)
+            if ty in NAMED:
+                ty = 0x4d7a0b0b
+            groups.append((ty, rng.choice([1, 2, 2, 3, 3, 4]), False))
+        k = sum(g[1] for g in groups)
+        total = flen + 12 * k                               # the directory grows by 12 bytes per extra entry
+        extra = []
+        for ty, n, real in groups:
+            for _ in range(n):
+                st = rng.below(10)
+                if st == 0 and ents:                        # the location of a real stream
+                    e = rng.choice(ents)
+                    loc = (e[1], e[2] + 12 * k)
+                elif st == 1:
+                    loc = (0, rng.choice([0, total, rng.below(total + 1)]))
+                elif st == 2:                               # out of bounds / overflowing
+                    loc = rng.choice([(rng.range(1, 64), total - rng.below(min(total, 32))), (1, U32), (U32, U32), (U32, 1), (total + 1, 0), (1, total)])
+                elif st == 3:                               # the whole file / the header
+                    loc = rng.choice([(total, 0), (32, 0), (total - 1, 1)])
+                else:
+                    rva = rng.below(total)
+                    loc = (rng.range(1, min(48, total - rva)), rva)
+                extra.append((ty, loc[0], loc[1]))
+        # any interleaving; the relative order of the entries decides which one is the last of its type
+        for i in range(len(extra) - 1, 0, -1):
+            j = rng.below(i + 1)
+            extra[i], extra[j] = extra[j], extra[i]
+        return extra
 
     def canon_impl(self, case, ans, profile):
         return ans.split(" ## ")[0]
@@ -1199,6 +1258,7 @@ class C02(PropBase):
             return None
         main, _, syn = ans.partition(" ## ")
         E = expected(m)
+        E.update(expected_dir(h, m["endian"] == 1))
         bad = compare(E, parse_answer(main))
         if bad:
             return bad
@@ -1291,6 +1351,9 @@ class C02(PropBase):
         # other byte order, so the parsed registers are not part of the LE/BE comparison
         got[2] = (got[2][0], [it[:7] if len(it) > 6 and it[6] == -1 else it[:11] for it in got[2][1]])
         got[8] = (got[8][0], [it[:23] for it in got[8][1]])
+        # raw stream bytes are byte-order dependent: the directory is compared by type, index, location, status and length
+        di = SECTIONS.index("dir")
+        got[di] = (got[di][0], [it[:6] for it in got[di][1]])
         try:
             _, _, m = parse_case(case)
         except Exception:
